@@ -72,11 +72,15 @@ def gen_words(tier, seed):
     rng = random.Random(1400 + seed)
     out = []
     quick = tier == "quick"
-    # one qubit: exhaustive words over H, S, T
+    # one qubit: every group element reachable by a word over H, S, T up to the length bound, through the words in normal form for the
+    # rewriting HH -> (), TT -> S, ST -> TS, SSSS -> () (none of which lengthens a word, so no reachable element is lost)
     a1 = alphabet(1)
-    for L in range(0, (6 if quick else 9) + 1):
+    L1 = 8 if quick else 10
+    for L in range(0, L1 + 1):
         for w in itertools.product(a1, repeat=L):
-            out.append((1, list(w), "exhaustive"))
+            s = "".join(g["g"][0] for g in w)
+            if not any(p in s for p in ("HH", "TT", "ST", "SSSS")):
+                out.append((1, list(w), "exhaustive"))
     for _ in range(0 if quick else 1500):
         out.append((1, [rng.choice(a1) for _ in range(rng.randint(10, 30))], "random"))
     # two qubits
@@ -105,15 +109,15 @@ def gen_words(tier, seed):
             out.append((2, rw(loc2, 0, 4) + [e] + rw(loc2, 0, 4), "dressed-" + ("swap-like" if e["g"] in ("SWAP", "ISWAP", "SISWAP") else "controlled")))
     for _ in range(60 * k):                             # two entanglers
         out.append((2, rw(loc2, 0, 3) + [rng.choice(ent2)] + rw(loc2, 1, 3) + [rng.choice(ent2)] + rw(loc2, 0, 3), "two-entanglers"))
-    for _ in range(150 * k):
-        out.append((2, rw(a2, 3, 12), "random"))
+    for _ in range(100 * k):
+        out.append((2, rw(a2, 3, 10 if quick else 14), "random"))
     # three qubits
     a3 = alphabet(3)
     out += [(3, [], "identity"), (3, [rec("Toffoli", [1, 2, 3])], "controlled"), (3, [rec("CSWAP", [1, 2, 3])], "controlled"),
             (3, [rec("CCZ", [1, 2, 3])], "diagonal"), (3, [rec("T", [1]), rec("S", [2]), rec("T", [3]), rec("CZ", [1, 3])], "diagonal"),
             (3, [rec("Hadamard", [1]), rec("T", [2]), rec("S", [3])], "local-product")]
-    for _ in range(30 if quick else 600):
-        out.append((3, rw(a3, 1, 10), "random"))
+    for _ in range(24 if quick else 600):
+        out.append((3, rw(a3, 1, 8 if quick else 12), "random"))
     return out
 
 
@@ -277,14 +281,15 @@ def run(tier, seed):
             meta.append({"word": w, "family": fam, "labels": labels, "relation": relation, "items": items, "ops": [repr(o)[:160] for o in ops][:40],
                          "U": U, "rule": conv if kind == "rule" else ""})
     n_real = len(traces)
-    for (n, w, fam, ring) in inputs:                  # one input trace per distinct unitary: TLC answers with what it is
-        traces.append({"kind": "input", "n": n, "tw": list(range(1, n + 1)), "u": ring, "conv": "", "gp": 0, "err": "", "out": [], "exp": -1})
+    for j, (n, w, fam, ring) in enumerate(inputs):    # one input trace per distinct unitary: TLC answers with what it is
+        traces.append({"kind": "input", "n": n, "tw": list(range(1, n + 1)), "u": ring, "conv": "", "gp": 0, "err": "", "out": [], "exp": -1,
+                       "chk": 1 if (tier != "quick" or j % 3 == 0) else 0})
     n_in = len(inputs)
     timing["pennylane_calls_s"] = round(time.time() - t0, 1)
     t0 = time.time()
     # classifier controls
     for j, (w, c) in enumerate(known):
-        traces.append({"kind": "class", "n": 2, "tw": [1, 2], "u": emitted[len(words) + j], "conv": "", "gp": 0, "err": "", "out": [], "exp": c})
+        traces.append({"kind": "class", "n": 2, "tw": [1, 2], "u": emitted[len(words) + j], "conv": "", "gp": 0, "err": "", "out": [], "exp": c, "chk": 1})
     # structural negative controls: corrupt one recorded field of accepted traces
     neg = []
 
@@ -310,7 +315,7 @@ def run(tier, seed):
     i = first(lambda t: t["kind"] == "u2r" and t["n"] == 2)
     if i is not None:
         neg.append((dict(traces[i], out=traces[i]["out"] + [{"g": "QubitUnitary", "w": [1], "x": [2]}]), "qubit-unitary-left"))
-    neg.append(({"kind": "class", "n": 2, "tw": [1, 2], "u": emitted[len(words) + 13], "conv": "", "gp": 0, "err": "", "out": [], "exp": 2}, "SELF"))
+    neg.append(({"kind": "class", "n": 2, "tw": [1, 2], "u": emitted[len(words) + 13], "conv": "", "gp": 0, "err": "", "out": [], "exp": 2, "chk": 1}, "SELF"))
     for t, _ in neg:
         traces.append(t)
     verdicts, r = run_traces([{k: v for k, v in t.items() if k not in ("msg", "inp")} for t in traces], "traces")
@@ -426,7 +431,8 @@ def run(tier, seed):
            "input_shapes(TLC)": dict(sorted(flag_hist.items())), "model_drift": drift_above, "model_drift_examples": drift_detail,
            "classifier_controls_ok": len(known), "negative_controls_rejected": nneg + neg_num_rej,
            "structural_negative_controls": nneg, "numeric_negative_controls": neg_num_rej, "tolerance": TOL, "ring_level_M": M, "timing": timing,
-           "exhaustive_part": "all words over {H,S,T} up to length %d on one wire; all words up to length 2 over the 2-wire alphabet" % (6 if tier == "quick" else 9)}
+           "exhaustive_part": "every one-qubit unitary reachable by a word over {H,S,T} of length <= %d; all words up to length 2 over the "
+                              "17-gate two-wire alphabet" % (8 if tier == "quick" else 10)}
     return CheckResult(coverage=cov, violations=viol, assumptions=[
         "partial: inputs are the (dense) Clifford+T(+controlled) subgroup, exact in D[omega]; Haar-random, near-singular and near-class-boundary "
         "unitaries are outside the exact domain",
